@@ -263,6 +263,12 @@ func mergeValues(opts *options, old, v value) (value, Error) {
 		return v, nil
 	}
 
+	if _, isRef := old.(*cfgDynamic); isRef {
+		// the configuration a reference evaluates to belongs to the setting it
+		// points at: merge into a copy, not into that setting
+		subOld = cfgSub{subOld}.cpy(old.Context()).(cfgSub).c
+	}
+
 	// merge new and old evaluated sub-configurations and return subOld for
 	// reassigning to old key in case of subOld being generated dynamically
 	if err := mergeConfig(opts, subOld, subV); err != nil {
